@@ -4,6 +4,7 @@ and reach on_toxic at most once."""
 import ast
 import contextlib
 import copy
+import ctypes
 import dataclasses
 import heapq
 import io
@@ -36,6 +37,62 @@ SAFE_BUILTINS = {"len", "print", "str", "type", "isinstance", "hasattr", "dict",
 SAFE_METHODS = {"append", "get", "update", "items", "clear", "keys", "values", "warning", "now", "copy", "pop",
                 "debug", "info", "error", "extend"}
 LOCKISH = {"acquire", "release", "wait", "join", "notify", "notify_all", "acquire_lock", "release_lock"}
+MUTATORS = {"append", "extend", "insert", "pop", "remove", "clear", "sort", "reverse", "__setitem__", "__delitem__", "update",
+            "add", "discard", "popitem", "setdefault"}
+SNAPSHOT_CALLS = {"range", "sorted", "list", "tuple", "set", "dict", "enumerate", "reversed", "zip"}
+SNAPSHOT_METHODS = {"items", "values", "keys", "copy"}
+
+
+def _same(a, b):
+    return ast.dump(a) == ast.dump(b)
+
+
+def _changes(nodes, target):
+    """do the statements / expressions `nodes` (syntactically) assign to or mutate `target` (a Name or self.X) - or call
+    a method of self (which may)?"""
+    for root in nodes:
+        for n in ast.walk(root):
+            if isinstance(n, (ast.Assign, ast.AugAssign, ast.AnnAssign, ast.Delete)):
+                tg = n.targets if isinstance(n, (ast.Assign, ast.Delete)) else [n.target]
+                for t in tg:
+                    for sub in ast.walk(t):
+                        if _same_expr(sub, target):
+                            return True
+            if isinstance(n, ast.Call) and isinstance(n.func, ast.Attribute):
+                if n.func.attr in MUTATORS and _same_expr(n.func.value, target):
+                    return True
+                if _is_self_attr(n.func) and _is_self_attr(target):
+                    return True              # self.m(...) may change self.X
+    return False
+
+
+def _same_expr(a, b):
+    def strip(x):
+        x = ast.parse(ast.unparse(x), mode="eval").body          # drops ctx (Load / Store / Del)
+        return ast.dump(x)
+    try:
+        return strip(a) == strip(b)
+    except Exception:
+        return False
+
+
+def unbounded_iter(it, body):
+    """None if a loop over `it` with body `body` makes at most as many iterations as a list that exists when it starts has
+    elements; otherwise a description"""
+    if isinstance(it, ast.Subscript) and isinstance(it.slice, ast.Slice):
+        return None                                                   # a slice is a copy
+    if isinstance(it, ast.Call):
+        f = it.func
+        if isinstance(f, ast.Name) and f.id in SNAPSHOT_CALLS:
+            return None
+        if isinstance(f, ast.Attribute) and f.attr in SNAPSHOT_METHODS and not _changes(body, f.value):
+            return None
+        return "for ... in " + ast.unparse(it)[:40]
+    if isinstance(it, (ast.List, ast.Tuple, ast.Constant)):
+        return None
+    if isinstance(it, ast.Name) or _is_self_attr(it):
+        return ("for ... in " + ast.unparse(it)[:40] + " (changed in the loop)") if _changes(body, it) else None
+    return "for ... in " + ast.unparse(it)[:40]
 
 
 def _is_self_attr(node, attr=None):
@@ -64,7 +121,7 @@ def lock_structure(source, cls_name="Lysosome"):
     classes = [n for n in tree.body if isinstance(n, ast.ClassDef) and n.name == cls_name]
     if len(classes) != 1:
         return "UnrecognisedLock", [dict(name="?class", locks=["?class-not-found"], calls_locked=[], calls_unlocked=[],
-                                         cbs_locked=[], cbs_unlocked=[])], ["class not found exactly once"]
+                                         cbs_locked=[], cbs_unlocked=[], sections=0, loops=[], qwrites_unlocked=False)], ["class not found exactly once"]
     cls = classes[0]
     if cls.bases or cls.keywords or cls.decorator_list:
         problems.append("class has bases/keywords/decorators")
@@ -111,7 +168,9 @@ def lock_structure(source, cls_name="Lysosome"):
         if not fn.args.args or fn.args.args[0].arg != "self":
             bad.append("first parameter is not self")
         params = {a.arg for a in fn.args.args + fn.args.kwonlyargs}
-        info = dict(name=name, locks=[], calls_locked=[], calls_unlocked=[], cbs_locked=[], cbs_unlocked=[])
+        info = dict(name=name, locks=[], calls_locked=[], calls_unlocked=[], cbs_locked=[], cbs_unlocked=[],
+                    sections=0, loops=[], qwrites_unlocked=False)
+        queue_attr = ast.Attribute(value=ast.Name(id="self", ctx=ast.Load()), attr="_queue", ctx=ast.Load())
 
         def add(key, v):
             if v not in info[key]:
@@ -129,6 +188,8 @@ def lock_structure(source, cls_name="Lysosome"):
                     if held:
                         bad.append("nested with self._lock")
                         add("calls_locked", name)      # re-acquisition while holding
+                    else:
+                        info["sections"] += 1           # a critical section of its own
                     for b in node.body:
                         visit(b, True)
                     return
@@ -136,6 +197,25 @@ def lock_structure(source, cls_name="Lysosome"):
             if isinstance(node, (ast.Await, ast.Yield, ast.YieldFrom)):
                 bad.append("await/yield")
                 add("locks", "?await-or-yield")
+            # loops: how many iterations?
+            if isinstance(node, ast.While):
+                info["loops"].append("while " + ast.unparse(node.test)[:50])
+            if isinstance(node, (ast.For, ast.AsyncFor)):
+                u = unbounded_iter(node.iter, node.body + node.orelse)
+                if u:
+                    info["loops"].append(u)
+            if isinstance(node, (ast.ListComp, ast.SetComp, ast.DictComp, ast.GeneratorExp)):
+                parts = ([node.key, node.value] if isinstance(node, ast.DictComp) else [node.elt])
+                for gen in node.generators:
+                    u = unbounded_iter(gen.iter, parts + list(gen.ifs))
+                    if u:
+                        info["loops"].append(u)
+            # the queue written outside every `with self._lock:` of this body?
+            if not held and name != "__init__" and _changes([node] if isinstance(node, (ast.Assign, ast.AugAssign, ast.AnnAssign, ast.Delete)) else [], queue_attr):
+                info["qwrites_unlocked"] = True
+            if (not held and isinstance(node, ast.Call) and isinstance(node.func, ast.Attribute) and node.func.attr in MUTATORS
+                    and _same_expr(node.func.value, queue_attr)):
+                info["qwrites_unlocked"] = True
             if isinstance(node, ast.Name) and node.id == "self":
                 bad.append("bare use of self (aliasing/escape)")
                 add("locks", "?self-escapes")
@@ -204,10 +284,12 @@ def gen_file_text(kind, methods, problems):
     def locks(xs):
         return clist(["LSelf" if x == "self" else f"(LOther {s(x)})" for x in xs])
     rows = [f"  mkM {s(m['name'])} {locks(m['locks'])} {sl(m['calls_locked'])} {sl(m['calls_unlocked'])} "
-            f"{sl(m['cbs_locked'])} {sl(m['cbs_unlocked'])}" for m in methods]
+            f"{sl(m['cbs_locked'])} {sl(m['cbs_unlocked'])} {m['sections']}%Z {sl(m['loops'])} {cbool(m['qwrites_unlocked'])}"
+            for m in methods]
     lines = [f"(* GENERATED by harness/c13.py from {SRC} on every run - do not edit.",
-             "   mkM method locks-acquired self-calls-under-the-lock self-calls-outside callbacks-under-the-lock callbacks-outside *)",
-             "From Coq Require Import List String Bool.",
+             "   mkM method locks-acquired self-calls-under-the-lock self-calls-outside callbacks-under-the-lock callbacks-outside",
+             "       separate-critical-sections-in-the-body loops-not-bounded-by-a-list queue-written-outside-the-lock *)",
+             "From Coq Require Import ZArith List String Bool.",
              "From Verif Require Import C13.Model.",
              "Import ListNotations.",
              "Open Scope string_scope.", ""]
@@ -218,6 +300,10 @@ def gen_file_text(kind, methods, problems):
               ";\n".join(rows), "].", "",
               "(* no thread can block on the lock it holds itself, and self._lock is the only lock *)",
               "Theorem Gen_C13_ok : no_self_deadlock gen_kind gen_graph && single_lock gen_graph = true.",
+              "Proof. vm_compute. reflexivity. Qed.", "",
+              "(* no loop without a bound and no recursion: every call is a finite program; every call goes through at most one",
+              "   outermost critical section, and self._queue is only written inside one *)",
+              "Theorem Gen_C13_calls_ok : bounded_calls gen_graph && atomic_calls gen_graph = true.",
               "Proof. vm_compute. reflexivity. Qed.", ""]
     return "\n".join(lines)
 
@@ -411,6 +497,141 @@ class DiagLock(sched.SchedLock):
     def __enter__(self):
         return self.acquire()
 
+    def release(self):
+        tid = self.sched.current_tid()
+        lin = self.info.get("lin")
+        if lin is not None and tid is not None and self.sched.held.get(tid, 0) == 1:
+            lin.guard(lin.sec_end, tid)          # the outermost critical section of this thread ends here
+        super().release()
+
+
+class Lin:
+    """Observer of ONE run of real threads under the deterministic scheduler: turns what the threads do into the steps of
+    the threads model (coq/C13/Model.v, Part 1c) - which thread moved, in which order - and records, per step, what the
+    lock protects (queue, total_ingested, by_type) at the moment the step takes effect:
+      a call of ingest / ingest_error / ingest_sensitive / the daemon's flush / autophagy = ONE step, its critical section
+        (snapshot when the thread gives the lock back);
+      a call of digest(k) = one step for its critical section (the items are taken), then one step per digester call it
+        makes outside the lock (placed where the NEXT digester call / the return happens, i.e. after digest()'s bookkeeping
+        for the item), the last of which returns the DigestResult;
+      any other call (read-only accessors) = one step when it returns.
+    Anything else the implementation does - a second critical section in one call, a digester called outside the lock by a
+    call that is not digest() - has no step in the model: it becomes a row [-6, ...] that the model does not produce."""
+
+    def __init__(self, rig, s, n_pre):
+        self.rig, self.s, self.n_pre = rig, s, n_pre
+        self.rows = []
+        self.lin = []
+        self.cur = {}
+        self.ing_order = []         # ids (slots) of the ingesting calls, in the order their critical sections happened
+        self.after_call = []        # (thread, call, queue length when the call returned)
+        self.errors = []
+        self.committed = self.snap()    # what the lock protects, as the last critical section (of any thread) left it
+
+    def guard(self, fn, *a):
+        try:
+            fn(*a)
+        except _Killed:
+            raise
+        except Exception as e:  # noqa - an observer must not change what the threads do
+            self.errors.append(f"{type(e).__name__}: {e}")
+
+    def snap(self):
+        lys = self.rig.lys
+        q = self.rig.queue_ids()
+        bt = getattr(lys, "_by_type", {})
+        return [len(q), getattr(lys, "_total_ingested", -1)] + [bt.get(t, -1) for t in self.rig.wt], q
+
+    def somebody_inside(self):
+        return any(n > 0 for n in self.s.held.values())
+
+    def view(self):
+        """the queue etc. as the threads model sees it at this moment: while a thread is inside a critical section (this
+        thread runs unlocked code meanwhile) that section has not taken effect yet"""
+        return self.committed if self.somebody_inside() else self.snap()
+
+    def new_row(self, tid, ret=None, extra=False, at_section_end=False):
+        if at_section_end:
+            self.committed = self.snap()
+            head, ids = self.committed
+        else:
+            head, ids = self.view()
+        row = {"tid": tid, "ret": ret, "head": head, "ids": ids, "extra": extra}
+        self.rows.append(row)
+        if not extra:
+            self.lin.append(tid)
+        return row
+
+    def begin_call(self, tid, o, slot):
+        kind = "ingest" if is_ingest(o) else o[0] if o[0] in ("digest", "auto") else "other"
+        self.cur[tid] = {"op": o, "kind": kind, "slot": slot, "nsec": 0, "ndg": 0, "row": None}
+
+    def sec_end(self, tid):
+        c = self.cur.get(tid)
+        if c is None or c["kind"] == "other":
+            self.committed = self.snap()
+            return
+        c["nsec"] += 1
+        if c["nsec"] == 1:
+            c["row"] = self.new_row(tid, at_section_end=True)
+            if c["kind"] == "ingest":
+                self.ing_order.append(c["slot"])
+        else:
+            self.new_row(tid, ret=[-6, c["nsec"]], extra=True, at_section_end=True)       # one call, several critical sections
+
+    def dg(self, slot):
+        tid = self.s.current_tid()
+        c = self.cur.get(tid) if tid is not None else None
+        if c is None or self.s.held.get(tid, 0) > 0:
+            return                                   # inside a critical section: part of that step
+        if c["kind"] != "digest" or c["row"] is None:
+            self.new_row(tid, ret=[-6, 0], extra=True)               # a digester running outside the lock, not in digest()
+            return
+        c["ndg"] += 1
+        if c["ndg"] == 1:
+            c["row"]["ret"] = [3]                    # digest() has taken its items and is inside its first digester
+        else:
+            self.new_row(tid, ret=[3])               # the previous digester returned / raised, bookkeeping done
+
+    def end_call(self, tid, ret):
+        c = self.cur.pop(tid, None)
+        if c is None:
+            return
+        self.after_call.append((tid, c["op"], self.view()[0][0]))
+        if c["kind"] == "digest":
+            r = {"digest": True, "success": int(ret.success is True), "disposed": ret.disposed,
+                 "errs": err_ids(ret.errors), "rec": pairs(ret.recycled)}
+            if c["ndg"] == 0 and c["row"] is not None:
+                c["row"]["ret"] = r
+            else:
+                self.new_row(tid, ret=r)
+            return
+        r = [2, ret] if c["kind"] == "auto" else ([0] if ret is None else [-7])
+        if c["kind"] == "other" or c["row"] is None:
+            if c["kind"] == "ingest":
+                self.ing_order.append(c["slot"])
+            self.new_row(tid, ret=r)
+        else:
+            c["row"]["ret"] = r
+
+    def model_id(self):
+        rank = {slot: self.n_pre + k for k, slot in enumerate(self.ing_order)}
+
+        def tr(x):
+            return x if 0 <= x < self.n_pre else rank.get(x, -1)
+        return tr
+
+    def flat_rows(self):
+        tr = self.model_id()
+        out = []
+        for row in self.rows:
+            r = row["ret"]
+            if isinstance(r, dict):
+                r = ([1, r["success"], r["disposed"], len(r["errs"])] + [tr(e) for e in r["errs"]] + [len(r["rec"])]
+                     + [x for (k, v) in r["rec"] for x in (k, tr(v))])
+            out.append((r if r is not None else [-8]) + [row["tid"]] + row["head"] + [tr(x) for x in row["ids"]])
+        return out
+
 
 def _spawn(fn):
     box = {}
@@ -423,6 +644,51 @@ def _spawn(fn):
     t = threading.Thread(target=target, daemon=True)
     t.start()
     return t, box
+
+
+class _Killed(BaseException):
+    """raised asynchronously inside a thread of the harness that is still running after its call was declared hung"""
+
+
+def where_is(t):
+    """(file:line function) of the innermost lysosome.py / autophagy_daemon.py frame of thread t, sampled twice ->
+    (location | None, moved): moved = the thread executed something between the samples (it SPINS, it is not blocked)"""
+    def sample():
+        fr = sys._current_frames().get(t.ident)
+        top = (id(fr), fr.f_lasti) if fr is not None else None
+        loc, chain = None, []
+        while fr is not None:
+            fn = fr.f_code.co_filename
+            if fn.endswith(("lysosome.py", "autophagy_daemon.py")):
+                if loc is None:
+                    loc = f"{fn.rsplit('/', 1)[-1]}:{fr.f_lineno}"
+                chain.append(fr.f_code.co_name)
+            fr = fr.f_back
+        return (f"{loc} in {' > '.join(reversed(chain))}" if loc else None), top
+    if t is None or not t.is_alive():
+        return None, False
+    loc1, top1 = sample()
+    moved = False
+    for _ in range(5):
+        time.sleep(0.002)
+        loc2, top2 = sample()
+        if top2 != top1 or loc2 != loc1:
+            moved = True
+            break
+    return loc1, moved
+
+
+def kill_threads(threads, wait=0.5):
+    """A call that never returns may be BLOCKED (harmless once abandoned) or SPINNING (it keeps a core and the GIL busy for
+    the rest of the run, and every further hung call adds one more): raise _Killed inside every thread that is still
+    alive, so that a busy loop ends and the locks it holds are released.  -> number of threads still alive."""
+    alive = [t for t in threads if t is not None and t.is_alive() and t is not threading.current_thread()]
+    for t in alive:
+        ctypes.pythonapi.PyThreadState_SetAsyncExc(ctypes.c_ulong(t.ident), ctypes.py_object(_Killed))
+    end = time.time() + wait
+    for t in alive:
+        t.join(max(0.0, end - time.time()))
+    return sum(1 for t in alive if t.is_alive())
 
 
 class _Pass:
@@ -500,11 +766,15 @@ class Rig:
         self.passes = {}            # label -> _Pass
         self.tls = threading.local()    # .ps = the _Pass this thread runs; .op = the call of the history it is in
         self.free_run = False       # set when the rig is torn down: nobody parks any more
+        self.spawned = []           # threads the driver ran calls on (a hung one is still alive when the rig is torn down)
         self.call_ops = []          # (id, raised, kind of the call of the history the digester ran in | None)   multi-thread runs
+        self.hook = None            # called with the item id at every digester / on_toxic call (scheduled runs: Lin.dg)
 
         def dg(waste):
             self.maybe_park()
             i = self.event_of_call(waste)
+            if self.hook:
+                self.hook(i)
             out = self.outs.get(i)
             self.calls.append((i, "dg", out is None))
             self.call_ops.append((i, out is None, getattr(self.tls, "op", None)))
@@ -517,6 +787,8 @@ class Rig:
         def on_toxic(waste):
             self.maybe_park()
             i = self.event_of_call(waste)
+            if self.hook:
+                self.hook(i)
             out = self.outs.get(i)
             self.toxlog.append(i)
             self.calls.append((i, "cb", out is None))
@@ -529,6 +801,8 @@ class Rig:
             def dgw(waste):
                 self.maybe_park()
                 i = self.event_of_call(waste)
+                if self.hook:
+                    self.hook(i)
                 try:
                     res = orig(waste)
                 except Exception:
@@ -554,9 +828,12 @@ class Rig:
         with self.cv:
             self.free_run = True
             self.cv.notify_all()
+        # a call that was declared hung is still running: end it first (it may hold the lock the others wait for)
+        kill_threads(self.spawned, 0.3)
         for ps in self.passes.values():
             if ps.thread is not None:
                 ps.thread.join(0.5)
+        kill_threads([ps.thread for ps in self.passes.values()], 0.3)
         self.L.datetime, self.L.Waste = self.saved
         if self.saved_ad is not None:
             self.AD.Waste = self.saved_ad
@@ -822,8 +1099,24 @@ class C13(Check):
             "/ 3 (thorough) small configurations, plus every order (depth <=4 quick / <=6 thorough, at digester-call granularity) of two "
             "overlapping digest() calls, complete digest() calls and ingests on 2 configurations with raising digesters, plus every history of "
             "depth <=2 (quick) / <=4 (thorough) over {ingest, ingest_error, daemon flush, clear_recycling_bin, get_recycled(key), digest} with "
-            "default digesters and silent=False. Validation only: 2 real threads x 1..3 calls on one Lysosome, random pre-fill (half of the runs: items whose digesters raise) and start "
-            "offsets (300 quick / 4000 thorough runs). non-trivial = at least one item left the queue; distinct by case content")
+            "default digesters and silent=False. auto_digest_threshold REASSIGNED between two calls (setthr n, n in 1..10; modelled: SetThr) in the "
+            "random histories, the overlapping-call histories and the wide enumeration. "
+            "THREADS: 2 real threads x 1..3 calls (ingest of each kind, the daemon's flush, digest(k), autophagy, accessors) on one Lysosome "
+            "under the deterministic scheduler harness/sched.py (a choice point at every acquire / release of every lock of the object and at "
+            "every lysosome.py line executed while holding none): 11 fixed programs (threshold reached by one thread while the other is inside "
+            "digest(); both threads ingesting into a FULL queue with the threshold out of reach, with and without a digest afterwards; "
+            "threshold 1; autophagy against ingest / digest; digest passes side by side over raising digesters) + random ones, explored "
+            "fewest-preemptions-first (<=2 preemptions, 90 schedules per program quick; <=3, 400 thorough), plus random schedules (every 8th "
+            "generated case). EVERY scheduled run is a case: the harness records the order in which the steps of the threads took effect "
+            "(one step per critical section of a call, one per digester call of a digest() in progress) and what the lock protects (queue "
+            "ids, total_ingested, by_type) at each of them, the DigestResults, and the quiescent final state; the threads model (Model.v "
+            "Part 1c) is run on that order and must print the same rows; the monitor checks at the RETURN OF EVERY CALL of every thread that "
+            "the queue holds at most max_queue_size items, that no thread is left blocked or executing, and the final-state invariants. "
+            "A call that does not return is diagnosed (still executing = a loop that does not end, or blocked; where) and its thread is ended, "
+            "so that a busy loop cannot starve the rest of the run. "
+            "Validation only: 2 real threads x 1..3 calls without the scheduler, random pre-fill (half of the runs: items whose digesters raise) and start "
+            "offsets (300 quick / 4000 thorough runs), queue bound read at the return of every call. non-trivial = at least one item left the queue "
+            "(scheduled runs: the threads' steps alternated at least once); distinct by case content")
     LEVEL_TEXT = ("Coq theorems over all configurations and all histories (no bound on length or sizes) about a hand-written "
                   "executable model of every method of Lysosome with a per-item digester-outcome oracle (returns keys | raises) "
                   "and ghost fates: queue length <= max_queue_size after every call (max >= 2); exact conservation (every "
@@ -833,21 +1126,33 @@ class C13(Check):
                   "interleaved semantics (digest passes of any number of threads split at their digester calls, any calls in between; "
                   "the sequential model is proved to be its special case): conservation with items in flight, every digestion error "
                   "listed in exactly one DigestResult exactly once, every DigestResult accounts for exactly the items its call took, "
-                  "the toxic and queue-bound theorems again. Lock "
+                  "the toxic and queue-bound theorems again. Reconfigured histories (auto_digest_threshold reassigned between calls): the same "
+                  "theorems for every state such a history reaches. Threads: any number of threads, each with any list of calls, under any "
+                  "schedule, started after any history: every such run is an interleaved history (so the bound holds after every step - in "
+                  "particular at the return of every call of every thread - and conservation, exactly-once reporting, the toxic statements hold "
+                  "throughout), a thread with something left to do is never blocked and every step strictly decreases a work measure, so "
+                  "no schedule makes more than work-many steps and at work 0 every call of every thread has returned. Lock "
                   "discipline: the lock kind and the lock/call structure of the class are regenerated from the source on every run "
-                  "and the decidable checks no_self_deadlock && single_lock are discharged on them by vm_compute; a Coq theorem "
+                  "and the decidable checks no_self_deadlock && single_lock and bounded_calls && atomic_calls (no `while` / no loop over "
+                  "something its body changes / no recursion; at most one `with self._lock` block per method body, at most one outermost critical "
+                  "section per call with everything it calls, self._queue written only inside one) are discharged on them by vm_compute; Coq theorems "
                   "about a one-lock abstract machine (any number of threads, any call sequences compiled from any call graph that "
-                  "passes the checks) shows that no reachable configuration with an unfinished thread is stuck. The model is tied "
+                  "passes the checks) show that no reachable configuration with an unfinished thread is stuck, that a call compiles to the same "
+                  "finite program for every sufficient fuel with at most one outermost critical section, and that a run of the machine makes "
+                  "exactly as many steps as instructions were executed (so it stops). The model is tied "
                   "to the code by evaluating it in Coq on every generated history the implementation ran.")
     LEVEL_NOTE = ("Trusts: Coq kernel+VM; the correspondence harness; the ast translator of the lock structure; CPython's `with "
-                  "lock` mutual exclusion; digesters/on_toxic return or raise Exception and do not block or re-enter. Two-thread "
-                  "runs (random real-thread runs and the systematic scheduler exploration) are validation, not proof; interleavings finer "
-                  "than digester-call granularity (between two source lines of digest()) are covered by those runs only. Axioms: none (Print Assumptions: closed under the global context).")
+                  "lock` mutual exclusion; digesters/on_toxic return or raise Exception and do not block or re-enter. The threads model is "
+                  "proved for all programs and schedules at the granularity critical-section / digester-call; that this IS the granularity of the code is "
+                  "the generated obligation atomic_calls plus the scheduled runs of real threads (every explored schedule is compared with the model); "
+                  "interleavings finer than that (between two source lines of digest() outside the lock: counters, the recycling bin's last writer) are "
+                  "covered by the runs' final-state checks only. Axioms: none (Print Assumptions: closed under the global context).")
     TECHNIQUE = ("Coq invariant proof by induction over histories with ghost fates; ast translator + reflective check of the lock "
                  "call graph + abstract lock-machine deadlock-freedom theorem; vm_compute correspondence against Lysosome on a "
                  "virtual clock with a watchdog per call, including histories of overlapping digest() calls driven deterministically by "
                  "parking real threads inside their digesters; real two-thread stress runs under a watchdog; systematic preemption-bounded "
-                 "schedule exploration of two real threads under a deterministic scheduler (deadlock detection on all locks)")
+                 "schedule exploration of two real threads under a deterministic scheduler (deadlock / livelock detection on all locks), every explored "
+                 "schedule linearised into steps of a Coq threads model and compared with it; termination of every schedule by a decreasing measure")
     TRUSTED = ["translator harness/c13.py:lock_structure (Python ast -> lock kind + per-method lock/call structure, fail closed)",
                "modelled not verified: `with self._lock` gives mutual exclusion, an RLock may be re-acquired by its holder and a "
                "Lock may not; one source line of the modelled methods executes atomically (counter += 1 outside the lock in digest)",
@@ -867,18 +1172,30 @@ class C13(Check):
                "lysosome.Waste to a dataclass subclass that only changes that default; lysosome.datetime is rebound likewise",
                "overlapping calls are modelled and driven at digester-call granularity (a thread is parked inside a digester / "
                "on_toxic call; what digest() does between two digester calls is one model step); ingest is atomic (it holds the lock)",
-               "two-thread behaviour at source-line granularity (real-thread runs, scheduler exploration) is validated, not proved"]
+               "scheduled runs: harness/sched.py (deterministic scheduler: real threads, sys.settrace, instrumented locks) and the observer "
+               "harness/c13.py:Lin, which maps what the threads did to steps of the threads model (a step of an ingesting call / autophagy = the end of its "
+               "outermost critical section; a step of digest() = the end of its critical section, then each further digester call made outside "
+               "the lock, then its return) and reads _queue / _total_ingested / _by_type without the lock at those points",
+               "a hung call is ended by raising an exception asynchronously in its thread (PyThreadState_SetAsyncExc); nothing is concluded "
+               "from a run after that point",
+               "two-thread behaviour below that granularity (source lines of digest() outside the lock) is validated by the final-state "
+               "checks of the runs, not proved"]
     ASSUMPTIONS = ["max_queue_size >= 2 for the queue bound (max_queue_size = 1 overflows: Examples.v bound_fails_at_1)",
                    "waste_type is a WasteType member; a digester raising BaseException (KeyboardInterrupt) is out of scope: it "
                    "would propagate out of digest() after the items were taken off the queue",
                    "'at all times' is read as: at every point where no call is in progress; while digest() calls are in progress the "
                    "items they have taken and not yet handed to a digester count as in flight, and 'reported' is judged when no call is in progress",
+                   "'after every call' with several threads: at the return of every call of every thread (other threads may be in the middle of "
+                   "their own calls; a critical section that has begun and not ended has not taken effect yet)",
+                   "auto_digest_threshold may be reassigned between calls; max_queue_size is fixed after construction (lowering it below the current "
+                   "queue length would break the bound by itself)",
                    "'reach the toxic callback exactly once': at most once ever, exactly once when digested or emergency-processed "
                    "with on_toxic set; items expired by autophagy never reach it (DESIGN.md section 6, Reading)"]
 
     def __init__(self, tier, seed):
         super().__init__(tier, seed)
         self.hangs_seen = 0
+        self._sched_cache = {}      # id(case) -> (observations, trace) of the schedules the systematic exploration ran
         self.waits_seen = 0         # calls that only returned after another thread's digester had returned
         self.kind = None
 
@@ -890,10 +1207,13 @@ class C13(Check):
         except SyntaxError as e:
             kind, problems = "UnrecognisedLock", [f"syntax error: {e}"]
             methods = [dict(name="?syntax", locks=["?syntax-error"], calls_locked=[], calls_unlocked=[],
-                            cbs_locked=[], cbs_unlocked=[])]
+                            cbs_locked=[], cbs_unlocked=[], sections=0, loops=[], qwrites_unlocked=False)]
         self.kind = kind
         common.write_if_changed(common.GEN / "Gen_C13.v", gen_file_text(kind, methods, problems))
-        self.extra_obligations = [("Gen_C13_ok", True)]
+        self.extra_obligations = [("Gen_C13_ok", True), ("Gen_C13_calls_ok", True)]
+        self.extra_cov["unbounded_loops"] = sorted(f"{m['name']}: {l}" for m in methods for l in m["loops"])
+        self.extra_cov["critical_sections_per_method_body"] = {m["name"]: m["sections"] for m in methods if m["sections"]}
+        self.extra_cov["queue_written_outside_its_own_with_block"] = sorted(m["name"] for m in methods if m["qwrites_unlocked"])
         self.extra_cov["lock_kind"] = kind
         self.extra_cov["lock_graph_methods"] = len(methods)
         self.extra_cov["lock_methods_acquiring"] = sorted(m["name"] for m in methods if m["locks"])
@@ -981,8 +1301,10 @@ class C13(Check):
             return ["auto"]
         if k < 0.80:
             return ["adv", rng.choice([0, 1, 1, 2, 3])]
-        if k < 0.95:
+        if k < 0.90:
             return self._rand_side(rng, i)
+        if k < 0.96:
+            return ["setthr", rng.choice([1, 1, 2, 3, 4, 9, 10])]
         return self._rand_prune(rng, None, False)
 
     def _rand_case(self, rng, maxlen):
@@ -1074,12 +1396,13 @@ class C13(Check):
                 return self._rand_prune(rng, out(i), True)
             return ["ingest", rng.choice([0, 1, 2, 3, TOXIC]), rng.choice([0, 0, 0, -1, -2]), out(i)]
         ops, i, q = [], 0, 0
+        sim = dict(cfg)              # the configuration in force (the threshold may be reassigned), for the estimates only
         left = {}                    # label -> items the open call still has to process (estimate)
         nxt = 0
         for _ in range(rng.randint(1, min(mx, max(1, thr - 1), 4))):
             ops.append(ing(i))
             i += 1
-            q = self._sim_ingest(q, cfg)
+            q = self._sim_ingest(q, sim)
         n = rng.randint(3, maxlen)
         while len(ops) < n:
             k = rng.random()
@@ -1100,26 +1423,47 @@ class C13(Check):
             elif k < 0.85:
                 ops.append(ing(i))
                 i += 1
-                q = self._sim_ingest(q, cfg)
+                q = self._sim_ingest(q, sim)
             elif k < 0.94:
                 kk = rng.choice([None, 1, 2])
                 ops.append(["digest", kk])
                 q -= self._sim_take(q, kk)
             elif k < 0.96:
                 ops.append(["auto"])
-            elif k < 0.985:
+            elif k < 0.975:
                 ops.append(self._rand_side(rng, i))
+            elif k < 0.99:
+                thr = rng.choice([1, 2, 3, mx, 10])
+                sim["thr"] = thr
+                ops.append(["setthr", thr])
             else:
                 ops.append(["adv", rng.choice([1, 2])])
         for p in sorted(left):       # every call returns before the history ends
             ops += [["pstep", p]] * left[p]
         return {"cfg": cfg, "ops": ops}
 
+    def _rand_sched_case(self, rng):
+        """two real threads x 1..3 calls under the deterministic scheduler: one of the fixed programs or a random one, and a
+        random schedule (which thread is preferred at each choice point; it changes its mind with probability 1/5)"""
+        if rng.random() < 0.5:
+            tc = copy.deepcopy(rng.choice(self.SCHED_PROGRAMS))
+            tc.pop("quick_runs", None)
+        else:
+            tc = self._sched_program(rng)
+        cur, prefix = rng.randrange(2), []
+        for _ in range(rng.choice([0, 20, 60, 120, 120])):
+            if rng.random() < 0.2:
+                cur = 1 - cur
+            prefix.append(cur)
+        return {"sched": {"program": tc, "schedule": prefix}}
+
     def gen_cases(self, rng, n):
         out = []
         for j in range(n):
             maxlen = 14 if (self.tier == "quick" or j % 4) else 30
-            if j % 4 == 1:
+            if j % 8 == 7:
+                out.append(self._rand_sched_case(rng))
+            elif j % 4 == 1:
                 out.append(self._rand_twin_case(rng, maxlen))
             elif j % 4 == 3:
                 out.append(self._rand_overlap_case(rng, maxlen))
@@ -1142,10 +1486,10 @@ class C13(Check):
             for d in range(1, depth + 1 - (1 if n == 2 else 0)):
                 for combo in itertools.product(alpha, repeat=d):
                     out.append({"cfg": cfg, "ops": [list(o) for o in combo]})
-        return out + self._exhaustive_overlaps() + self._exhaustive_wide()
+        return out + self._exhaustive_overlaps() + self._exhaustive_wide() + self._explored_sched_cases()
 
-    WIDE_ALPHABET = [["ingest", 0, 0, [0, 1]], ["ierr", [0]], ["prune", [], "force"], ["clear"], ["peek", 0], ["digest", None],
-                     ["ingest", 3, 0, None]]
+    WIDE_ALPHABET = [["ingest", 0, 0, [0, 1]], ["ierr", [0]], ["prune", [], "force"], ["clear"], ["setthr", 1], ["digest", None],
+                     ["peek", 0], ["ingest", 3, 0, None]]
 
     def _exhaustive_wide(self):
         """every history of depth <=2 (quick) / <=4 (thorough) over the calls the widened generator adds (the daemon's flush,
@@ -1153,7 +1497,7 @@ class C13(Check):
         cfg = {"max": 2, "thr": 3, "ret": 2, "cb": True, "loud": True, "dd": True}
         depth = 2 if self.tier == "quick" else 4
         return [{"cfg": cfg, "ops": [list(o) for o in combo]}
-                for d in range(1, depth + 1) for combo in itertools.product(self.WIDE_ALPHABET[:6 if self.tier == "quick" else 7], repeat=d)]
+                for d in range(1, depth + 1) for combo in itertools.product(self.WIDE_ALPHABET[:6 if self.tier == "quick" else 8], repeat=d)]
 
     def _exhaustive_overlaps(self):
         """every way two overlapping digest() calls (threads 0 and 1), complete digest() calls and ingests that reach the
@@ -1241,6 +1585,9 @@ class C13(Check):
             if o[0] == "adv":
                 rig.clock.t += o[1]
                 ret, row = None, [0]
+            elif o[0] == "setthr":
+                lys.auto_digest_threshold = o[1]      # a plain public attribute, reassigned between two calls
+                ret, row = None, [0]
             elif is_pass(o) and ((o[0] == "pbegin") == (o[1] in open_labels)):
                 ret, row, bad = None, [-5], True        # label in use / no such pass: not a call
             else:
@@ -1252,6 +1599,7 @@ class C13(Check):
                     else:
                         st = None
                         opt, box = _spawn(rig.do(o, nid))
+                        rig.spawned.append(opt)
                         opt.join(self._timeout())
                         if opt.is_alive():
                             raise common.Hang()
@@ -1270,8 +1618,11 @@ class C13(Check):
                     self.hangs_seen += 1 if stuck else 0
                     self.waits_seen += 0 if stuck else 1
                     obs.append([-999] if stuck else [-997])
+                    # what the call that does not return is doing: executing (a loop that never ends) or blocked
+                    culprit = (rig.passes[o[1]].thread if is_pass(o) and o[1] in rig.passes else None) if is_pass(o) else opt
+                    loc, moved = where_is(culprit) if stuck else (None, False)
                     steps.append({"op": o, "hang": stuck, "waited": not stuck, "before": before,
-                                  "parked": sorted(open_labels)})
+                                  "parked": sorted(open_labels), "at": loc, "spinning": moved})
                     return obs, {"steps": steps, "hang": stuck, "at": idx}
                 if st is not None:
                     ps = rig.passes[o[1]]
@@ -1335,16 +1686,53 @@ class C13(Check):
     def _cout(o):
         return "Raises" if o is None else f"(Ok {czl(o)})"
 
+    def _op_term(self, cfg, o, slot):
+        """the `op` of the model for a call made by a scheduler thread (ids are given by the model in ingestion order)"""
+        if o[0] == "ingest":
+            return f"Ingest {TYPES[o[1]]} {cz(o[2])} {self._cout(eff_out(cfg, o, slot))}"
+        if o[0] == "ierr":
+            return f"IngestError {self._cout(eff_out(cfg, o, slot))}"
+        if o[0] == "isens":
+            return f"IngestSensitive {self._cout(o[1])}"
+        if o[0] == "prune":
+            return f"Ingest ExpiredCache 0 {self._cout(eff_out(cfg, o, slot))}" if o[2] in PRUNING else "Advance 0"
+        if o[0] == "peek":
+            return "Advance 0"
+        if o[0] == "digest":
+            return f"DigestOp {copt(o[1])}"
+        if o[0] == "auto":
+            return "Autophagy"
+        raise ValueError(f"not a call a scheduler thread makes: {o}")
+
     def coq_case(self, case):
-        if "two_threads" in case or "sched" in case:          # replay of a two-thread finding: nothing for the sequential model to run
-            return "(mkConfig 0 0 0 false, [])"
+        if "two_threads" in case:          # replay of a finding of the random real-thread runs: nothing for the model to run
+            return "(mkConfig 0 0 0 false, [], [], [])"
+        if "sched" in case:
+            # real threads under the deterministic scheduler: the programs, and the order in which their steps took effect
+            tc = case["sched"]["program"]
+            cfg = tc["cfg"]
+            if cfg.get("dd") or not cfg["cb"]:
+                raise ValueError("scheduled runs use scripted digesters and an on_toxic callback")
+            pre, slot = [], 0
+            for po in self._pre_ops(tc):
+                pre.append(f"ROp (Atomic ({self._op_term(cfg, po, slot)}))")
+                slot += 1
+            progs = []
+            for ops in tc["threads"]:
+                row = []
+                for o in ops:
+                    row.append(self._op_term(cfg, o, slot))
+                    slot += 1
+                progs.append(clist(row))
+            return (f"(mkConfig {cz(cfg['max'])} {cz(cfg['thr'])} {cz(cfg['ret'])} {cbool(cfg['cb'])}, {clist(pre)}, "
+                    f"{clist(progs)}, {czl(case.get('_lin', []))})")
         cfg = case["cfg"]
         ops = []
         t = 0
         ev = []          # per ingest event: (type index, created_at, outcome)
 
         def atomic(x):
-            ops.append(f"Atomic ({x})")
+            ops.append(f"ROp (Atomic ({x}))")
         for o in case["ops"]:
             if o[0] == "ingest":
                 out = eff_out(cfg, o, len(ev))
@@ -1381,13 +1769,15 @@ class C13(Check):
             elif o[0] == "auto":
                 atomic("Autophagy")
             elif o[0] == "pbegin":      # thread o[1] calls digest(o[2]) and is parked inside its first digester
-                ops.append(f"PassBegin {cz(o[1])} {copt(o[2])}")
+                ops.append(f"ROp (PassBegin {cz(o[1])} {copt(o[2])})")
             elif o[0] == "pstep":       # the digester thread o[1] is parked in returns / raises
-                ops.append(f"PassStep {cz(o[1])}")
+                ops.append(f"ROp (PassStep {cz(o[1])})")
+            elif o[0] == "setthr":      # lysosome.auto_digest_threshold = n
+                ops.append(f"SetThr {cz(o[1])}")
             else:
                 atomic(f"Advance {cz(o[1])}")
                 t += o[1]
-        return f"(mkConfig {cz(cfg['max'])} {cz(cfg['thr'])} {cz(cfg['ret'])} {cbool(cfg['cb'])}, {clist(ops)})"
+        return f"(mkConfig {cz(cfg['max'])} {cz(cfg['thr'])} {cz(cfg['ret'])} {cbool(cfg['cb'])}, {clist(ops)}, [], [])"
 
     # -- the property, on the implementation's trace ------------------------
     def monitor(self, case, obs, trace):
@@ -1421,6 +1811,8 @@ class C13(Check):
             if st.get("hang"):
                 hist = [s["op"] for s in steps]
                 return Violation("C13/hang", f"{where} did not return within the watchdog time"
+                                             + (f" [the call is still {'EXECUTING (a loop that does not end)' if st.get('spinning') else 'blocked'} "
+                                                f"at {st['at']}]" if st.get("at") else "")
                                              + (f" (nor after the digesters other threads {st['parked']} were parked in had returned)" if st.get("parked") else "")
                                              + f"; history {hist} "
                                              f"with max_queue_size={cfg['max']} auto_digest_threshold={cfg['thr']} (queue before: {st['before']})")
@@ -1555,10 +1947,24 @@ class C13(Check):
         return None
 
     def nontrivial(self, case, obs, trace):
+        if "sched" in case:
+            return isinstance(trace, dict) and trace.get("switches", 0) > 0
         return isinstance(trace, dict) and any(len(s.get("after", [])) < len(s.get("before", [])) + (1 if s.get("new") is not None else 0)
                                                for s in trace.get("steps", []))
 
     def classify(self, case, obs, trace):
+        if "sched" in case or "two_threads" in case:
+            tc = case["sched"]["program"] if "sched" in case else case["two_threads"]
+            cfg = tc["cfg"]
+            ks = ["threads:scheduled-run" if "sched" in case else "threads:real-run",
+                  "threads:" + ("thr>max" if cfg["thr"] > cfg["max"] else "thr<=max")]
+            if isinstance(trace, dict) and "switches" in trace:
+                ks.append("threads:switches=" + str(min(trace["switches"], 6)))
+                ks.append("threads:model-steps=" + str(min(trace["steps"], 12)))
+            for ops in tc["threads"]:
+                for o in ops:
+                    ks.append("threads:call:" + o[0])
+            return ks
         cfg = case["cfg"]
         ks = [f"len={min(len(case['ops']), 15)}", "thr>max" if cfg["thr"] > cfg["max"] else ("thr=max" if cfg["thr"] == cfg["max"] else "thr<max")]
         if cfg["thr"] == 1:
@@ -1574,6 +1980,8 @@ class C13(Check):
                 ks.append("daemon:" + o[2])
             elif o[0] in ("peek", "clear"):
                 ks.append({"peek": "get_recycled(key)", "clear": "clear_recycling_bin"}[o[0]])
+            elif o[0] == "setthr":
+                ks.append("threshold-reassigned" + (":to-1" if o[1] == 1 else ""))
         if not isinstance(trace, dict):
             return ks
         if any(is_pass(o) for o in case["ops"]):
@@ -1675,7 +2083,7 @@ class C13(Check):
             ops = []
             for _ in range(rng.randint(1, 3)):
                 o = op(i)
-                while o[0] in ("adv", "clear"):       # clear_recycling_bin would void the final-state check of the bin
+                while o[0] in ("adv", "clear", "setthr"):       # clear_recycling_bin would void the final-state check of the bin
                     o = op(i)
                 ops.append(o)
                 i += 1            # ids are reserved per slot whether or not the op ingests
@@ -1752,17 +2160,34 @@ class C13(Check):
             return Violation("C13/lost-update", f"{desc}: recycling bin {binraw} but digest() received keys from {producers}")
         return None
 
+    def _prefill(self, rig, tc):
+        """the ingests of the main thread before the threads start, each under the watchdog -> (number made, None | Violation)"""
+        nid = 0
+        for po in self._pre_ops(tc):
+            with rig.quiet():
+                t, box = _spawn(rig.do(po, nid))
+                rig.spawned.append(t)
+                t.join(self._timeout())
+            if t.is_alive():
+                loc, moved = where_is(t)
+                self.hangs_seen += 1
+                return nid, Violation("C13/hang", f"the ingest #{nid} {po} of the pre-fill {self._pre_ops(tc)} on max_queue_size={tc['cfg']['max']} "
+                                                  f"auto_digest_threshold={tc['cfg']['thr']} did not return within the watchdog time [the call is still "
+                                                  f"{'EXECUTING (a loop that does not end)' if moved else 'blocked'}{' at ' + loc if loc else ''}]")
+            if "e" in box:
+                return nid, Violation("C13/raises", f"the ingest #{nid} {po} of the pre-fill raised {type(box['e']).__name__}: {box['e']}")
+            nid += 1
+        return nid, None
+
     def run_threads(self, tc):
         """-> None | Violation.  Final-state check of the monitor's invariants."""
         cfg = tc["cfg"]
         rig = Rig(cfg)
         lys = rig.lys
         try:
-            nid = 0
-            for po in self._pre_ops(tc):
-                with rig.quiet():
-                    rig.do(po, nid)()
-                nid += 1
+            nid, v = self._prefill(rig, tc)
+            if v is not None:
+                return v
             fns, rets = [], [[], []]
             n_ing = tc["pre"]
             for ops in tc["threads"]:
@@ -1773,33 +2198,49 @@ class C13(Check):
                     nid += 1
                 fns.append(row)
             barrier = threading.Barrier(2)
+            snaps, boxes = [], [{}, {}]
 
             def body(k):
-                barrier.wait()
-                d = tc["delay_us"][k]
-                if d:
-                    t_end = time.perf_counter() + d / 1e6
-                    while time.perf_counter() < t_end:
-                        pass
-                for (o, fn) in fns[k]:
-                    rig.tls.op = o[0]
-                    rets[k].append((o, fn()))
+                try:
+                    barrier.wait()
+                    d = tc["delay_us"][k]
+                    if d:
+                        t_end = time.perf_counter() + d / 1e6
+                        while time.perf_counter() < t_end:
+                            pass
+                    for (o, fn) in fns[k]:
+                        rig.tls.op = o[0]
+                        r = fn()
+                        # "after every call": an unlocked reading, valid at any instant (the queue never exceeds the bound)
+                        snaps.append((k, o, len(getattr(lys, "_queue", []))))
+                        rets[k].append((o, r))
+                except BaseException as e:  # noqa
+                    boxes[k]["e"] = e
 
-            def both():
-                ts = [threading.Thread(target=body, args=(k,), daemon=True) for k in range(2)]
+            ts = [threading.Thread(target=body, args=(k,), daemon=True) for k in range(2)]
+            with rig.quiet():
                 for t in ts:
                     t.start()
+                end = time.time() + self._timeout()
                 for t in ts:
-                    t.join()
-            try:
-                with rig.quiet():
-                    common.call_with_watchdog(both, self._timeout())
-            except common.Hang:
+                    t.join(max(0.0, end - time.time()))
+                stuck = [t for t in ts if t.is_alive()]
+                where = [where_is(t) for t in stuck]
+                kill_threads(ts, 0.5)
+            if stuck:
                 self.hangs_seen += 1
+                what = "; ".join(f"a thread is still {'EXECUTING (a loop that does not end)' if moved else 'blocked'}" + (f" at {loc}" if loc else "")
+                                 for (loc, moved) in where)
                 return Violation("C13/hang", f"two threads {tc['threads']} after {tc['pre']} ingests on max_queue_size={cfg['max']} "
-                                             f"auto_digest_threshold={cfg['thr']}: not all calls returned within the watchdog time")
-            except Exception as e:
-                return Violation("C13/raises", f"two threads {tc['threads']}: a call raised {type(e).__name__}: {e}")
+                                             f"auto_digest_threshold={cfg['thr']}: not all calls returned within the watchdog time [{what}]")
+            for k in range(2):
+                if "e" in boxes[k]:
+                    e = boxes[k]["e"]
+                    return Violation("C13/raises", f"two threads {tc['threads']}: a call raised {type(e).__name__}: {e}")
+            for (k, o, qn) in snaps:
+                if cfg["max"] >= 2 and qn > cfg["max"]:
+                    return Violation("C13/queue-unbounded", f"two threads {tc['threads']} after the ingests {self._pre_ops(tc)}: when the call {o} of "
+                                                            f"thread {k} returned the queue held {qn} items > max_queue_size {cfg['max']}")
             return self._final_check(rig, cfg, rets, n_ing, f"two threads {tc['threads']} after the ingests {self._pre_ops(tc)}")
         finally:
             rig.close()
@@ -1834,15 +2275,26 @@ class C13(Check):
          "pre_ops": [["ingest", 2, 0, None]],
          "threads": [[["digest", None], ["digest", None]], [["ingest", 0, 0, None], ["ingest", 3, 0, None], ["digest", None]]],
          "quick_runs": 70},
+        # capacity, nothing but ingests: both threads ingest into a full queue (threshold out of reach), no digest afterwards
+        {"cfg": {"max": 2, "thr": 9, "ret": 1, "cb": True}, "pre": 2,
+         "threads": [[["ingest", 1, 0, []]], [["ierr", [0]], ["isens", []]]], "quick_runs": 100},
+        # capacity 3 = threshold - 1: ingests at capacity against autophagy (nothing expires) and a partial digest
+        {"cfg": {"max": 3, "thr": 4, "ret": 2, "cb": True}, "pre": 3,
+         "threads": [[["isens", None], ["ingest", 0, 0, [2]]], [["ingest", 3, 0, None], ["auto"], ["digest", 1]]], "quick_runs": 100},
     ]
 
     def run_sched(self, tc, prefix):
         """One execution of the two-thread program `tc` under harness/sched.py following the schedule
-        `prefix` (then non-preemptively) -> (None | Violation, scheduler)."""
+        `prefix` (then non-preemptively) -> (None | Violation, scheduler, observations, linearisation).
+        observations = header row, one row per step of the threads model (Lin), the quiescent final row;
+        linearisation = the thread that made each step: what coq_case feeds run_case of the model."""
         cfg = tc["cfg"]
         rig = Rig(cfg)
         lys = rig.lys
         state = {"last": None}
+        rp = lys.retention_period
+        obs = [[lys.max_queue_size, lys.auto_digest_threshold,
+                rp // HOUR if rp % HOUR == _dt.timedelta(0) else -12345, int(lys.on_toxic is not None)]]
 
         def choose(step, enabled):
             if step < len(prefix) and prefix[step] in enabled:
@@ -1855,14 +2307,18 @@ class C13(Check):
             return c
 
         s = sched.Scheduler((SRC,), choose)
+        if self.hangs_seen:
+            s.stall_limit = 1.0                # a thread that never comes back was seen before: do not wait 3 s each time
+        threads_before = set(threading.enumerate())
+        lin = None
         try:
-            nid = 0
-            for po in self._pre_ops(tc):
-                with rig.quiet():
-                    rig.do(po, nid)()
-                nid += 1
+            nid, v = self._prefill(rig, tc)
+            if v is not None:
+                return v, s, obs, []
             # EVERY lock the object owns becomes a scheduler-aware lock of the same reentrancy
-            info = {"locks": [], "wants": {}, "snap": None}
+            lin = Lin(rig, s, nid)
+            rig.hook = lambda i: lin.guard(lin.dg, i)
+            info = {"locks": [], "wants": {}, "snap": None, "lin": lin}
             for k, v in list(vars(lys).items()):
                 if type(v).__name__ in ("lock", "RLock"):
                     setattr(lys, k, DiagLock(s, type(v).__name__ == "RLock", k, info))
@@ -1871,42 +2327,98 @@ class C13(Check):
             for tid, ops in enumerate(tc["threads"]):
                 row = []
                 for o in ops:
-                    row.append((o, rig.do(o, nid)))
+                    row.append((o, rig.do(o, nid), nid))
                     n_ing += 1 if is_ingest(o) else 0
                     nid += 1
 
                 def run(tid=tid, row=row):
-                    for (o, fn) in row:
+                    for (o, fn, slot) in row:
                         try:
                             rig.tls.op = o[0]
-                            rets[tid].append((o, fn()))
+                            lin.guard(lin.begin_call, tid, o, slot)
+                            r = fn()
+                            lin.guard(lin.end_call, tid, r)
+                            rets[tid].append((o, r))
                         except sched.Deadlock:
                             raise
                         except Exception as e:  # noqa
                             errs.append((tid, o, f"{type(e).__name__}: {e}"))
                             return
                 fns.append(run)
+            hung = False
             try:
                 with rig.quiet():
                     common.call_with_watchdog(lambda: s.run(fns), 20.0)
             except common.Hang:
-                return Violation("C13/hang", f"scheduled threads {tc['threads']}: the run did not finish (a thread blocks on "
-                                             f"something the scheduler does not control); schedule prefix {prefix}"), s
+                hung = True
+            leaked = [t for t in threading.enumerate() if t not in threads_before and t.is_alive()]
+            stalled_at = None
+            if hung or s.stalled is not None:
+                # the thread that was given the turn and never reached another scheduling point: what is it doing?
+                ident = next((i for i, t in s.tids.items() if t == s.stalled), None)
+                th = next((t for t in leaked if t.ident == ident), None)
+                stalled_at = where_is(th) if th is not None else (None, False)
+                self.hangs_seen += 1
+            kill_threads(leaked, 0.5)
+            rig.hook = None
+            obs += lin.flat_rows()
             chosen = [c for c, _ in s.trace if c is not None]
-            desc = (f"threads {tc['threads']} after the ingests {self._pre_ops(tc)} on max_queue_size={cfg['max']} "
-                    f"auto_digest_threshold={cfg['thr']}, schedule {chosen}")
+            prog = (f"threads {tc['threads']} after the ingests {self._pre_ops(tc)} on max_queue_size={cfg['max']} "
+                    f"auto_digest_threshold={cfg['thr']}")
+            sch = f"schedule {chosen if len(chosen) <= 150 else str(chosen[:150]) + ' ... (%d choices)' % len(chosen)}"
+            desc = f"{prog}, {sch}"
+
+            def out(v):
+                return v, s, obs, list(lin.lin)
+            if hung:
+                return out(Violation("C13/hang", f"{desc}: the run did not finish (a thread blocks on something the scheduler "
+                                                 f"does not control, or never stops executing)"))
+            if s.stalled is not None:
+                loc, moved = stalled_at
+                return out(Violation("C13/hang", f"{prog}: thread {s.stalled} was given the turn and never reached another scheduling point: "
+                                                 f"its call {[c['op'] for t, c in lin.cur.items() if t == s.stalled]} does not return "
+                                                 f"[the thread is still {'EXECUTING (a loop that does not end)' if moved else 'blocked'}"
+                                                 f"{' at ' + loc if loc else ''}]; calls returned so far per thread {[len(r) for r in rets]}; {sch}"))
+            if s.deadlock and len(chosen) >= 5000:
+                # not a deadlock: the threads kept reaching scheduling points (lock operations) until the step budget was used up
+                return out(Violation("C13/hang", f"{prog}: after {len(chosen)} scheduling steps the run has not ended: the calls "
+                                                 f"{[(t, c['op']) for t, c in sorted(lin.cur.items())]} (thread, call) keep executing - taking and "
+                                                 f"releasing the lock over and over - and never return; calls returned so far per thread "
+                                                 f"{[len(r) for r in rets]}; {sch}"))
             if s.deadlock:
                 snap = info.get("snap") or {}
-                return Violation("C13/deadlock", f"{desc}: no thread can run: thread -> lock it waits for {snap.get('blocked_on')}, "
-                                                 f"lock -> (owner thread, hold count) {snap.get('owners')}; "
-                                                 f"calls returned so far per thread {[len(r) for r in rets]}"), s
+                return out(Violation("C13/deadlock", f"{desc}: no thread can run: thread -> lock it waits for {snap.get('blocked_on')}, "
+                                                     f"lock -> (owner thread, hold count) {snap.get('owners')}; "
+                                                     f"calls returned so far per thread {[len(r) for r in rets]}"))
             if errs or s.errors:
-                return Violation("C13/raises", f"{desc}: {errs} {dict((k, repr(v)) for k, v in s.errors.items())}"), s
+                return out(Violation("C13/raises", f"{desc}: {errs} {dict((k, repr(v)) for k, v in s.errors.items())}"))
             for tid, ops in enumerate(tc["threads"]):
                 if len(rets[tid]) != len(ops):
-                    return Violation("C13/hang", f"{desc}: thread {tid} returned from {len(rets[tid])} of {len(ops)} calls"), s
-            return self._final_check(rig, cfg, rets, n_ing, desc), s
+                    return out(Violation("C13/hang", f"{desc}: thread {tid} returned from {len(rets[tid])} of {len(ops)} calls"))
+            # "after every call the queue holds at most max_queue_size items": at the return of every call of every thread
+            for (tid, o, qn) in lin.after_call:
+                if cfg["max"] >= 2 and qn > cfg["max"]:
+                    return out(Violation("C13/queue-unbounded", f"when the call {o} of thread {tid} returned the queue held {qn} items > max_queue_size "
+                                                                f"{cfg['max']} (queue sizes at the returns of the calls, in order (thread, call, size): "
+                                                                f"{[(t, c[0], n) for (t, c, n) in lin.after_call]}): {desc}"))
+            if lin.errors:
+                return out(Violation("C13/raises", f"{desc}: the observer of the run failed: {lin.errors[:2]}"))
+            # the quiescent final state, as final_row of the model prints it
+            tr = lin.model_id()
+            st = lys.get_statistics()
+            q = rig.queue_ids()
+            binraw = lys.get_recycled()
+            n_rep = sum(len(r.errors) for rr in rets for (o, r) in rr if o[0] == "digest")
+            n_silent = sum(1 for (_c, raised, op) in rig.call_ops if raised and op != "digest")
+            n_exp = sum(r for rr in rets for (o, r) in rr if o[0] == "auto")
+            obs.append([st["queue_size"], st["total_ingested"], st["total_digested"], st["total_recycled"]]
+                       + [st["by_type"].get(t, -1) for t in TVAL] + [len(q)] + [tr(x) for x in q]
+                       + [len(binraw)] + sorted(keynum(k) for k in binraw)
+                       + [len(rig.toxlog)] + sorted(tr(x) for x in rig.toxlog)
+                       + [n_rep, n_silent, n_exp] + [0, 0])
+            return out(self._final_check(rig, cfg, rets, n_ing, desc))
         finally:
+            rig.hook = None
             rig.close()
 
     @staticmethod
@@ -1917,19 +2429,24 @@ class C13(Check):
                 n += 1
         return n
 
-    def explore_sched(self, tc, bound, max_runs):
+    def explore_sched(self, tc, bound, max_runs, collect=None):
         """stateless search over schedules, fewest preemptions first, up to `bound` preemptions and
-        `max_runs` executions -> (runs, distinct schedules, first (Violation, schedule) or None, exhausted)"""
+        `max_runs` executions -> (runs, distinct schedules, first (Violation, schedule) or None, exhausted).
+        collect: list that receives (case, observations, trace) of every distinct schedule that was run"""
         heap, tick = [(0, 0, [])], 1
         runs, seen, first = 0, set(), None
+        prog = {k: v for k, v in tc.items() if k != "quick_runs"}
         while heap and runs < max_runs:
             _p, _t, prefix = heapq.heappop(heap)
-            v, s = self.run_sched(tc, prefix)
+            v, s, obs, lin = self.run_sched(tc, prefix)
             runs += 1
             chosen = [c for c, _ in s.trace if c is not None]
             if tuple(chosen) in seen:
                 continue
             seen.add(tuple(chosen))
+            if collect is not None:
+                collect.append(({"sched": {"program": prog, "schedule": chosen[:5000]}, "_lin": lin}, obs,
+                                self._sched_trace(v, lin)))
             if v is not None:
                 first = (v, chosen)
                 break
@@ -1971,31 +2488,40 @@ class C13(Check):
                     break
         self.extra_cov["two_thread_runs"] = ran
         self.extra_cov["two_thread_failures"] = bad
-        self.extra_cov["two_thread_note"] = "real threads, random pre-fill and start offsets, final-state monitor; validation, not proof"
-        self._sched_checks()
+        self.extra_cov["two_thread_note"] = ("real threads, random pre-fill and start offsets, the queue bound at the return of every call, "
+                                             "final-state monitor; validation, not proof")
 
-    def _sched_checks(self):
+    @staticmethod
+    def _sched_trace(v, lin):
+        return {"two_threads": True, "sched": True, "v": v, "steps": len(lin),
+                "switches": sum(1 for a, b in zip(lin, lin[1:]) if a != b)}
+
+    def _explored_sched_cases(self):
         """systematic two-thread exploration under harness/sched.py (yield at every acquire/release of every lock of
-        the object and at every lysosome.py line executed while holding none of them)"""
+        the object and at every lysosome.py line executed while holding none of them).  Every schedule that is run becomes a
+        case: its observations (made during the exploration; kept, not made again) go through the monitor and are compared
+        with the threads model on the order in which the steps of the threads took effect."""
         rng = random.Random(f"C13:sched:{self.seed}")
         quick = self.tier == "quick"
-        bound, per = (2, 150) if quick else (3, 400)
+        bound, per = (2, 90) if quick else (3, 400)
         progs = [dict(p) for p in self.SCHED_PROGRAMS] + [self._sched_program(rng) for _ in range(1 if quick else 16)]
         total = distinct = bad = exhausted = skipped = 0
+        cases = []
         t_end = time.time() + (60 if quick else 300)       # wall guard on a loaded machine; reported when it bites
         for tc in progs:
             if time.time() > t_end:
                 skipped += 1
                 continue
-            runs, nseen, first, done = self.explore_sched(tc, bound, min(per, tc.get("quick_runs", per)) if quick else per)
+            got = []
+            runs, nseen, first, done = self.explore_sched(tc, bound, min(per, tc.get("quick_runs", per)) if quick else per, got)
             total += runs
             distinct += nseen
             exhausted += 1 if done else 0
+            for (case, obs, trace) in got:
+                self._sched_cache[id(case)] = (obs, trace)
+                cases.append(case)
             if first is not None:
-                v, schedule = first
-                bad += 1
-                v.case = {"sched": {"program": tc, "schedule": schedule}}
-                self.violations.append(v)
+                bad += 1            # the failing schedule is the last case of this program: the monitor reports it
                 if bad >= 2:
                     break
         self.extra_cov["sched_programs"] = len(progs)
@@ -2009,12 +2535,18 @@ class C13(Check):
             self.notes.append(f"scheduled two-thread exploration: {skipped} program(s) skipped by the wall-clock guard")
         self.extra_cov["sched_note"] = ("2 real threads x 1-3 calls under the deterministic scheduler, every lock attribute of the object "
                                         "instrumented, fewest-preemptions-first stateless search; per schedule: no deadlock, every call "
-                                        "returned, final-state invariants; validation, not proof")
+                                        "returned, the queue bound at the return of every call of every thread, final-state invariants, and "
+                                        "the rows of the threads model (Model.v Part 1c) on the order in which the steps took effect")
+        return cases
 
     def _safe_impl(self, case):
         if "sched" in case:
-            v, _s = self.run_sched(case["sched"]["program"], case["sched"]["schedule"])
-            return [[0, 0, 0, 0] if v is None else [-999]], {"two_threads": True, "v": v}
+            hit = self._sched_cache.pop(id(case), None)
+            if hit is not None:
+                return hit              # a schedule run by the systematic exploration of this very run
+            v, _s, obs, lin = self.run_sched(case["sched"]["program"], case["sched"]["schedule"])
+            case["_lin"] = lin          # the order in which the threads' steps took effect: input of the model (coq_case)
+            return obs, self._sched_trace(v, lin)
         if "two_threads" in case:
             v = self.run_threads(case["two_threads"])
             return [[0, 0, 0, 0] if v is None else [-999]], {"two_threads": True, "v": v}
